@@ -30,6 +30,11 @@ TFrom == IsEv("from") /\ LET r == Recs[l]
                              d == FromRepr(r.bytes)
                          IN /\ (r.some = 1) = (d[1] = "some")
                             /\ r.some = 1 => (r.r = d[2] /\ r.back = r.bytes)
+\* the share decoder accepts a 24-byte coordinate exactly when it is a canonical encoding,
+\* and re-encodes what it accepted unchanged
+TShareDec == IsEv("sharedec") /\ LET r == Recs[l] IN
+               /\ (r.some = 1) = (FromRepr(r.bytes)[1] = "some")
+               /\ r.some = 1 => r.back = r.whole
 TTo == IsEv("to") /\ LET r == Recs[l] IN IsElem(r.a) /\ r.bytes = ToRepr(r.a)
 
 \* the published constants (ff::PrimeField)
@@ -46,7 +51,7 @@ TConst == IsEv("consts") /\ LET r == Recs[l] IN
   /\ r.delta = FSquare(r.generator)                    \* g^(2^S)
   /\ r.zero = Zero /\ r.one = One
 
-TraceNext == TBin \/ TUn \/ TInv \/ TPow \/ TSqrt \/ TSqrtOk \/ TFrom \/ TTo \/ TConst
+TraceNext == TShareDec \/ TBin \/ TUn \/ TInv \/ TPow \/ TSqrt \/ TSqrtOk \/ TFrom \/ TTo \/ TConst
 TraceSpec == l = 1 /\ [][TraceNext]_l
 
 Accepted ==
